@@ -280,6 +280,11 @@ func (i *Interp) loadFrom(T types.Type, p value) value {
 		if v, ok := i.selectElem(sp.elems, sp.idx); ok {
 			return v
 		}
+		// elements that cannot be merged into one value (slices, pointers): case split over the
+		// groups of identical elements - a 256-entry table with two non-nil entries is a 3-way split
+		if v, ok := i.selectByGroups(sp); ok {
+			return v
+		}
 	}
 	a := i.asPtr(p)
 	if a == nil {
@@ -290,6 +295,44 @@ func (i *Interp) loadFrom(T types.Type, p value) value {
 		panic(i.unsupported("use of value not computed during package init: " + ps.why))
 	}
 	return v
+}
+
+func (i *Interp) selectByGroups(sp symptr) (value, bool) {
+	c := i.ctx
+	t := i.bvTerm(sp.idx)
+	w := t.Sort.W
+	n := len(sp.elems)
+	if w < 31 && n > 1<<uint(w) {
+		n = 1 << uint(w)
+	}
+	type group struct {
+		rep  value
+		cond *smt.Term
+	}
+	var gs []group
+	for j := 0; j < n; j++ {
+		eq := c.Eq(t, c.BVConst(uint64(j), w))
+		found := false
+		for k := range gs {
+			if sameValueIdentity(gs[k].rep, sp.elems[j]) {
+				gs[k].cond = c.Or(gs[k].cond, eq)
+				found = true
+				break
+			}
+		}
+		if !found {
+			if len(gs) >= i.cfg.MaxConcretize {
+				return nil, false
+			}
+			gs = append(gs, group{rep: sp.elems[j], cond: eq})
+		}
+	}
+	for k := range gs {
+		if k == len(gs)-1 || i.decide(gs[k].cond) {
+			return copyVal(gs[k].rep), true
+		}
+	}
+	return nil, false
 }
 
 // selectElem builds elems[idx] as an ite chain (idx known to be in range).
@@ -381,6 +424,9 @@ func (i *Interp) index(x, idx value) value {
 		if s, ok := idx.(sym); ok {
 			i.checkIndex(s, len(xv))
 			if v, ok := i.selectElem(xv, s); ok {
+				return v
+			}
+			if v, ok := i.selectByGroups(symptr{elems: xv, idx: s}); ok {
 				return v
 			}
 			return copyVal(xv[i.concretize(i.bvTerm(s), "array index")])
